@@ -72,6 +72,17 @@ Proof.
 Qed.
 Print Assumptions C10_batch_eq_map.
 
+(* the agreement hypothesis is needed: a function flagged as vectorised that does not return one
+   value per point of the batch it is handed is not repaired by the evaluation *)
+Theorem C10_vectorised_twin_needed_refuted :
+  exists (fv : list nat -> list nat) i l, vectorised i = true /\
+     eval_tree (fun x : nat => x) fv (fun X Y g l => map g l) batch_tree i l <> map (fun x => x) l.
+Proof.
+  exists (fun _ => [0]), {| has_pool := false; vectorised := true; chunksize := 0; n_pool := 0 |}, [1;2;3].
+  vm_compute. split; [reflexivity|discriminate].
+Qed.
+Print Assumptions C10_vectorised_twin_needed_refuted.
+
 (* unit-hypercube mode: the function is evaluated at the mapped physical points *)
 Theorem C10_unit_cube :
   forall (U A B : Type) (from_unit : U -> A) (f : A -> B) (fv : list A -> list B)
